@@ -797,8 +797,15 @@ def case_repl(r):
         w = out[0].split()
         if w[1] != "ok":
             return "iwu_replace failed: %s" % out[0]
-        if clean and U(w[2]) != repl_ref(data, keys):
-            return "iwu_replace(%r, %r) = %r, sequential replacement gives %r" % (data, keys, U(w[2]), repl_ref(data, keys))
+        if clean:
+            ref = repl_ref(data, keys)
+            if "+" in w[2]:      # the harness prints at most OUT_BUDGET bytes and "+<rest>": compare the prefix and the total length
+                hx, extra = w[2].split("+")
+                got = U(hx)
+                if got != ref[:len(got)] or len(ref) != len(got) + int(extra):
+                    return "iwu_replace(%r, %r): first %d bytes / total length differ from sequential replacement" % (data, keys, len(got))
+            elif U(w[2]) != ref:
+                return "iwu_replace(%r, %r) = %r, sequential replacement gives %r" % (data, keys, U(w[2]), ref)
         return None
     return Case("repl", ["repl " + " ".join([H(data)] + [H(k) for k in keys])] if keys else ["repl %s -" % H(data)], oracle if keys else None)
 
